@@ -311,7 +311,19 @@ func (c *cfgString) toBool(*options) (bool, error)       { return strconv.ParseB
 func (c *cfgString) toString(*options) (string, error)   { return c.s, nil }
 func (c *cfgString) toInt(*options) (int64, error)       { return strconv.ParseInt(c.s, 0, 64) }
 func (c *cfgString) toUint(*options) (uint64, error)     { return strconv.ParseUint(c.s, 0, 64) }
-func (c *cfgString) toFloat(*options) (float64, error)   { return strconv.ParseFloat(c.s, 64) }
+
+// toFloat: a text that is an integer numeral means the same number for a float
+// target as for an integer target and as after a variable expansion ("010" is
+// 8, not 10; "0x10" is 16); every other text is a floating point text.
+func (c *cfgString) toFloat(*options) (float64, error) {
+	if i, err := strconv.ParseInt(c.s, 0, 64); err == nil {
+		return float64(i), nil
+	}
+	if u, err := strconv.ParseUint(c.s, 0, 64); err == nil {
+		return float64(u), nil
+	}
+	return strconv.ParseFloat(c.s, 64)
+}
 
 func (c cfgSub) Context() context                   { return c.c.ctx }
 func (cfgSub) toBool(*options) (bool, error)        { return false, ErrTypeMismatch }
